@@ -996,8 +996,11 @@ func TestC18Exhaustive(t *testing.T) {
 	c18RunGrid(t, st, cases)
 }
 
+// TestC18Replay shows the raw verdict of one case: known findings are not
+// excluded here, so a seed case of an open finding replays as a failure.
 func TestC18Replay(t *testing.T) {
 	defer cleanupWork()
+	os.Unsetenv("VERIF_KNOWN")
 	vstat.Replay(t, "C18", func(raw []byte) error {
 		var c c18Case
 		if err := json.Unmarshal(raw, &c); err != nil {
